@@ -14,6 +14,25 @@ def load():
 def apply(m):
     """returns overlay mapping or None when the mutant no longer applies"""
     mapping = {}
+    if "patch" in m:
+        # a stored unified diff (benign/<id>/patch.diff): each touched file is copied to scratch and patched there
+        import re, shutil, subprocess, tempfile
+        diff = open(os.path.join(VERIF, m["patch"])).read()
+        files = re.findall(r"^\+\+\+ b/(\S+)", diff, re.M)
+        root = os.path.join(scratch(), "mutp-%s" % m["id"])
+        shutil.rmtree(root, ignore_errors=True)
+        for f in files:
+            os.makedirs(os.path.dirname(os.path.join(root, f)), exist_ok=True)
+            try:
+                shutil.copy(os.path.realpath(os.path.join(REPO, f)), os.path.join(root, f))
+            except OSError:
+                return None
+        r = subprocess.run(["patch", "-p1", "-s", "--no-backup-if-mismatch", "-d", root], input=diff, text=True, capture_output=True)
+        if r.returncode != 0:
+            return None
+        for f in files:
+            mapping[os.path.join(REPO, f)] = os.path.join(root, f)
+        return mapping
     edits = m["edits"] if "edits" in m else [dict(file=m["file"], find=m["find"], replace=m["replace"])]
     for i, ed in enumerate(edits):
         src = os.path.join(REPO, ed["file"])
@@ -42,6 +61,12 @@ def run_mutant(m, runner):
         return "broken", str(e)[:300]
     finally:
         core.set_overlay({})
+    if m.get("neutral"):
+        # a behaviour-preserving variant: the rule must stay silent
+        if r["findings"]:
+            f = r["findings"][0]
+            return "false-alarm", "%s: %s" % (f.signature, f.what[:160])
+        return "quiet", "no findings on the behaviour-preserving variant"
     hits = [f for f in r["findings"] if m["expect"] in f.signature or m["expect"] in f.function or m["expect"] in f.what]
     if hits:
         return "caught", "%s: %s" % (hits[0].signature, hits[0].what[:160])
